@@ -451,7 +451,10 @@ def run(ctx):
             # width (plain-text path = wrap(text, indent, offset=indent+3, width=width-indent)): no line is longer than width - indent
             # unless it is a single unbreakable word behind its indent; the result must be that of THIS call's width
             # whatever was converted before (`program`: the calls made so far in this process with the same text)
-            for k, line in enumerate(impl.split("\n")):
+            body = impl
+            if body.endswith(".") and not text.rstrip().endswith("."):
+                body = body[:-1]          # the quote guard's full stop is appended AFTER wrapping (it is not part of the wrapped comment)
+            for k, line in enumerate(body.split("\n")):
                 limit = (width - b) - (b + 3) if k == 0 else (width - b)
                 if len(line) > limit and len([w for w in re.split("[\t\n\x0b\x0c\r ]+", line.strip(" ")) if w]) > 1:
                     ctx.fail("rst-width", f"line {k} of rst(text, width={width}, indent={b}) has {len(line)} columns (limit {limit}) and more than one word: {line!r}",
@@ -506,6 +509,8 @@ def replay(ctx, payload):
         b = payload.get("indent", 0)
         for (w_, b_, nl_) in payload.get("program") or []:          # the calls that preceded it in the failing run, in order
             out = rst(payload["text"], width=w_, indent=b_, nl=nl_)
+            if out.endswith(".") and not payload["text"].rstrip().endswith("."):
+                out = out[:-1]
             for k, line in enumerate(out.split("\n")):
                 limit = (w_ - b_) - (b_ + 3) if k == 0 else (w_ - b_)
                 if len(line) > limit and len([w for w in re.split("[\t\n\x0b\x0c\r ]+", line.strip(" ")) if w]) > 1:
